@@ -11,7 +11,7 @@
                          points at something that itself prints as null
      hook_law sd         classification of a struct's (MarshalJSON, UnmarshalJSON) pair *)
 From Coq Require Import List String Bool ZArith NArith Ascii.
-From MV Require Import Lib.GoJson Lib.GoJsonFacts Gen.CfgTypes Model.ConfigRT Proofs.ConfigRT.
+From MV Require Import Lib.GoJson Lib.GoJsonFacts Gen.CfgTypes Model.ConfigRT Proofs.ConfigRT Proofs.ConfigRTFull.
 Import ListNotations.
 Open Scope string_scope.
 
@@ -116,3 +116,71 @@ Theorem c19_file_name_append_first_refuted :
   loader_accepts (file_name 128 canon_ops (repeat_char "a"%char 124)) = true /\
   loader_accepts (file_name 128 canon_ops (repeat_char "a"%char 200)) = true.
 Proof. exact file_name_append_first_refuted. Qed.
+
+(* ============================================================================================================== *)
+(* THE FULL GRAPH: the round trip THROUGH the hooked structs.                                                      *)
+(* The (Un)MarshalJSON pairs get their meaning from a form compiled to field indices (Lib/GoJson.v hook_compiled):   *)
+(*   CShadow  the 12 shadow-field pairs: marshal copies out_c(hidden) into slot i of the embedded target for each   *)
+(*            extracted assignment, unmarshal parses the target and sets hidden := in_c(slot)                       *)
+(*   CChain   FilterChain (single tls_context <-> tls_context_set)     CInline  RouterConfiguration /               *)
+(*   CListener Listener (address, network default)                              ClusterManagerConfig, inline mode   *)
+(*   CJson    SecretConfigWrapper: carried as the JSON it prints                                                    *)
+(* WF T t v (Model/ConfigRT.v) is the explicit well-formedness: plain parts as before; a hooked struct value is      *)
+(* well-formed when what it hands to the encoder is, plus: hidden metadata are string maps (shadow pairs), the        *)
+(* parsed context list of a FilterChain is not empty, the path field of RouterConfiguration / ClusterManagerConfig   *)
+(* is "" (inline mode), a Listener has a resolved non-empty address and a normalised network.  table_ok2 adds to     *)
+(* table_ok the conditions on every hooked struct (indices in range and distinct, targets plain, slot types, no        *)
+(* pointer to a hook whose target prints as null).  meta_rt is the one fact about the metadata slot type.            *)
+(* ============================================================================================================== *)
+Theorem c19_table_ok2 : table_ok2 cfg_structs = true.
+Proof. exact table_ok2_true. Qed.
+Theorem c19_meta_slot : meta_rt cfg_structs.
+Proof. exact meta_rt_cfg. Qed.
+Print Assumptions c19_meta_slot.
+
+(* generic: every table meeting the conditions (the hook laws are part of table_ok2: a vm_compute check on the compiled
+   hooks, lifted to "copy-out after copy-in gives back the reloaded target" by the lemmas shadow_roundtrip,
+   chain_roundtrip, inline_roundtrip, listener_roundtrip of Proofs/ConfigRTFull.v) *)
+Theorem c19_roundtrip_full_generic : forall T, table_ok2 T = true -> meta_rt T -> forall fuel t v,
+  WF T t v -> ty_ok T t = true -> fuel_free (encode T fuel t v) = true ->
+  forall fuel' v', decode T fuel' t (encode T fuel t v) = Some v' ->
+    encode T fuel t v' = encode T fuel t v /\ (is_empty v = false -> is_empty v' = false).
+Proof. exact stable_full. Qed.
+Print Assumptions c19_roundtrip_full_generic.
+
+(* for the generated graph: every well-formed value of every type of the MOSNConfig graph - listeners with filter
+   chains and TLS contexts, routers with virtual hosts, routes, actions, clusters with hosts, health checks ... any
+   sizes and nesting - satisfies  dump (load (dump v)) = dump v.  (At this level nothing is reordered: the order of the
+   name-keyed lists changes only in the effective config, see c19_eff_*.) *)
+Theorem c19_roundtrip_full : forall fuel t v, WF cfg_structs t v -> ty_ok cfg_structs t = true ->
+  fuel_free (encode cfg_structs fuel t v) = true ->
+  forall fuel' v', decode cfg_structs fuel' t (encode cfg_structs fuel t v) = Some v' ->
+    encode cfg_structs fuel t v' = encode cfg_structs fuel t v /\ (is_empty v = false -> is_empty v' = false).
+Proof. exact roundtrip_full_cfg. Qed.
+Print Assumptions c19_roundtrip_full.
+
+(* WF is decidable by the executable check used in the correspondence *)
+Theorem c19_wfb_sound : forall T fuel t v, wfb T fuel t v = true -> WF T t v.
+Proof. exact wfb_sound. Qed.
+
+(* non-vacuity: a configuration with a listener (Listener + FilterChain hooks, single tls_context), a router with a
+   route (RouterConfiguration, Router, RouteAction: metadata and a duration), a cluster (ClusterManagerConfig,
+   HealthCheck durations, CircuitBreakers, Host metadata): well-formed, loads back, and its dump is NOT the input
+   document (tls_context became tls_context_set, network and zero durations appeared) *)
+Example c19_example_full :
+  wfb cfg_structs 64 (TNamed "v2.MOSNConfig") w_cfg = true /\
+  ty_ok cfg_structs (TNamed "v2.MOSNConfig") = true /\
+  fuel_free (encode cfg_structs 64 (TNamed "v2.MOSNConfig") w_cfg) = true /\
+  (exists v', decode cfg_structs 64 (TNamed "v2.MOSNConfig") (encode cfg_structs 64 (TNamed "v2.MOSNConfig") w_cfg) = Some v') /\
+  json_eqb (encode cfg_structs 64 (TNamed "v2.MOSNConfig") w_cfg) w_doc = false.
+Proof. exact example_full. Qed.
+
+(* STILL OPEN (kept under _partial): path (directory) mode of RouterConfiguration / ClusterManagerConfig keeps the items
+   in files; the file naming is modelled (theorems c19_file_name_...) but the directory itself is not part of the model's
+   documents, so WF demands inline mode (inline_side) and decode gives no result for a non-empty path: *)
+Theorem c19_path_mode_partial : forall tgt hidden pathf inlf z sub p,
+  iget [pathf] sub = Some (VStr p) -> p <> "" -> inline_in tgt hidden pathf inlf z sub = None.
+Proof.
+  intros tgt hidden pathf inlf z sub p H Hp. unfold inline_in. rewrite H.
+  destruct p; [contradiction|reflexivity].
+Qed.
